@@ -490,6 +490,41 @@ def c_alias(q, a):
     q.bump()
     return size[0] + a, size[1], n, q.count
 
+def h_box(bbox, lim):
+    x0, y0, x1, y1 = bbox
+    return (max(x0, lim), max(y0, lim), min(x1, lim + 2), min(y1, lim + 2))
+
+def c_copy(a, b):
+    x0 = a
+    if b > 2:
+        y0 = b
+    else:
+        y0 = a + b
+    x1, y1 = x0 + 2, y0 + 2
+    return h_box((x0, y0, x1, y1), b)
+
+def c_copy_later(a, b):
+    s = a
+    t = s                         # s is re-bound afterwards: t keeps the old value
+    s = s + b
+    return t, s
+
+def c_copy_loop(a, b):
+    out = []
+    s = a
+    for i in range(3):
+        t = s                     # the store to s follows in the loop body: not a copy
+        out.append(t)
+        s = s + b
+    u = s
+    out.append(u)
+    return out
+
+def c_copy_swap(a, b):
+    p, q = a, b
+    p, q = q, p
+    return p, q
+
 def c_meth(v, a):
     return K(v).caller_m(a)
 
@@ -547,6 +582,8 @@ def main():
         'c_counter': itertools.product(vals, vals), 'c_counter1': [([],), ([5],), ([5, 6, 7],)], 'c_lambda': itertools.product(vals, vals),
         'c_plain': itertools.product(vals, vals), 'c_withifexp': [(v,) for v in vals],
         'c_alias': [(None, v) for v in vals],
+        'c_copy': itertools.product(vals, vals), 'c_copy_later': itertools.product(vals, vals), 'c_copy_loop': itertools.product(vals, vals),
+        'c_copy_swap': itertools.product(vals, vals),
         'c_rng_swapped': itertools.product(vals, vals), 'c_closure': itertools.product(vals, vals), 'c_try_rest': [(v,) for v in vals], 'c_try_ret': [(v,) for v in vals], 'c_try_norets': [(v,) for v in vals], 'c_rng_self': itertools.product(vals, vals),
     }
     bad = 0
